@@ -154,3 +154,57 @@ Definition leaves_preserved (want got : list bytes) : bool := list_eqb bytes_eqb
 
 Definition number_slots_ok (panicked failed : bool) (want got : list bytes) : bool :=
   negb panicked && negb failed && negb (is_nilb want) && leaves_preserved want got.
+
+(* ---------- JSON / XML / YAML round trip: documents with drawn names ---------- *)
+(* Same reading as for the number slots, for documents whose element / attribute / key names and
+   texts are drawn from a pool (names of HTML void elements, dashes, dots, digits, mixed case,
+   namespaces; texts with entity-like and CDATA-like content): no call failed, and the leaves of
+   the value the consumer rebuilt are the leaves of the value the producer was given. *)
+Definition doc_leaves_ok (panicked failed : bool) (want got : list bytes) : bool :=
+  number_slots_ok panicked failed want got.
+
+(* ---------- histories: one codec value used for several calls ---------- *)
+(* A codec value carries no state from one call to the next: every call of a history must answer
+   what the same call answers on a fresh codec value. For the modelled codecs the expected
+   observable of a history is therefore the map of the single-call model over its calls. *)
+Definition consume_history (c : codec) (bufm1 : nat) (pol : nat -> nat) (close_opt : bool)
+           (l : list (option (list rstep * bool) * dkind)) : list cres :=
+  map (fun x => consume c bufm1 pol close_opt (live (fst x)) (snd x)) l.
+
+Definition produce_history (c : codec) (bufm1 : nat) (close_opt : bool)
+           (l : list (option (wstate * bool) * skind * (bytes * option err))) : list pres :=
+  map (fun x => produce c bufm1 close_opt (fst (fst x)) (snd (fst x)) (snd x)) l.
+
+(* the situation of F-C15-2, as a function of one call *)
+Definition call_excepted (cd : codec) (x : option (list rstep * bool) * dkind) : bool :=
+  match fst x with
+  | Some (l, _) => text_empty_exception cd (steps_bytes l) && dk_supported cd (snd x) && dk_prepopulated (snd x)
+  | None => false
+  end.
+
+(* JSON / XML / YAML calls of a history (encoders not modelled: stated on the observables).
+   Produce of a supported value into a writer script that accepts everything (wfail = false) or
+   fails at some offset and keeps failing (wfail = true); pre = what the sink held, full = the
+   bytes a fresh producer writes for this value into an accepting sink; want / back = leaves of the
+   value and of what a fresh consumer rebuilds from the bytes this call added to the sink.
+   Success only on a healthy writer, the sink then holds pre ++ full, nothing before it and
+   nothing after it, and that reads back as the value; a failure is reported as an error and the
+   sink holds a prefix of pre ++ full. *)
+Definition doc_produce_ok (wfail : bool) (pre full : bytes) (panicked : bool) (e : option err)
+           (got : bytes) (want back : list bytes) : bool :=
+  negb panicked &&
+  match e with
+  | None => negb wfail && bytes_eqb got (pre ++ full) && negb (is_nilb want) && leaves_preserved want back
+  | Some _ => wfail && has_prefix got (pre ++ full)
+  end.
+
+(* Consume of the bytes a fresh producer wrote for a value, through a reader script that delivers
+   them all and ends in io.EOF (rfail = false) or fails strictly inside the document: success
+   only on the healthy reader, and then the destination reads as the value; want / got = leaves. *)
+Definition doc_consume_ok (rfail : bool) (panicked : bool) (e : option err)
+           (want got : list bytes) : bool :=
+  negb panicked &&
+  match e with
+  | None => negb rfail && negb (is_nilb want) && leaves_preserved want got
+  | Some _ => rfail
+  end.
